@@ -122,7 +122,9 @@ Boundary models (CGMY with g == 0 or m == 0, spec flag "boundary"): several clos
   `boundary_route_degenerate` and noted, never alarmed; every finite value is judged like any other (the second moment on
   bounded intervals, the mass for y != 0, the first moment for y > 1, all n >= 3).
 
-Not covered / outside the alphabet: a > b; [0, 0] where a route raises; [e, e] with e infinite; intervals on which the n-th
+Not covered / outside the alphabet: a > b; [0, 0] where a route raises; a query that a truncation ending AT the origin
+  clamps to [0, 0] while |x|^n nu is not integrable at 0 (the base route returns NaN / inf there; counted
+  `truncated_tie_at_origin_out_of_scope`); [e, e] with e infinite; intervals on which the n-th
   moment diverges (at 0 or in a power-law tail); odd n sign on straddling intervals; parameter values and end points off the
   lattice; n > 5 except 8 / 12 on directly constructed models; one-element arrays / lists as end points of the measure routes
   and 0-d arrays for `mass` (rejected by the unchanged tree: TypeError in scipy quad, IndexError); float32 end points (not the
@@ -333,9 +335,10 @@ def cases(tier):
     # ARGUMENT FORM of the truncation interval (integer forms need integer end points)
     tforms_full = [([(-2.0, 1.0)], "inplace", "int"), ([(-1.0, 2.0)], "deepcopy", "int-array"), ([(-0.5, 0.7)], "deepcopy", "npfloat"),
                    ([(-2.0, 1.0), (-0.5, 0.7)], "inplace", "array"), ([(-1.0, 2.0)], "inplace", "npint"), ([(-0.5, 0.7)], "inplace", "list")]
+    tforms_full.append(([(0.0, 1.0)], "inplace", "int"))  # a truncation that ends AT the origin (ties of the clamping)
     tforms_short = [([(-1.0, 2.0)], "inplace", "int"), ([(-0.5, 0.7)], "deepcopy", "npfloat")]
     if thorough:
-        tforms_full += [([(-5.0, 5.0)], "inplace", "int"), ([(-INF, 0.3)], "inplace", "npfloat"), ([(0.0, 1.0)], "inplace", "int"),
+        tforms_full += [([(-5.0, 5.0)], "inplace", "int"), ([(-INF, 0.3)], "inplace", "npfloat"),
                         ([(-2.0, 1.0), (-1.0, 2.0)], "deepcopy", "int")]
         tforms_short = tforms_full[:4]
     # directly constructed models: every truncation and every nested pair in place, plus (copy-then-truncate) the first
@@ -696,6 +699,9 @@ def _flags_finite_at_zero(nu, n):
         return None
 
 
+_DEGENERATE_RAISES = ("raises-ZeroDivisionError", "raises-OverflowError")
+
+
 def _failure_class(v, ref, tol):
     if math.isnan(v):
         return "nan"
@@ -820,7 +826,7 @@ def _sub_model(sh, case):
             kind, v, used_quad = _call(model, nu, route, a, b, n)
             sh.count("evaluations")
             sh.cls("route-uses-quad" if used_quad else "route-closed-form")
-            if boundary and (kind in ("raises-ZeroDivisionError", "raises-OverflowError") or (kind == "ok" and math.isnan(v))):
+            if boundary and (kind in _DEGENERATE_RAISES or (kind == "ok" and math.isnan(v))):
                 # a side without damping: the closed form degenerates (0 ** negative, exp1(0) - exp1(0)); recorded, not judged
                 sh.count("boundary_route_degenerate")
                 sh.cls(f"boundary-degenerate:{fam}:{route}:n={n}:{'nan' if kind == 'ok' else kind}")
@@ -959,8 +965,8 @@ def _argforms(sh, model, nu, route, n, vals, E, PAIRS, fmode, scale, who, label,
                 sh.violation(key % kind, f"{label}: {route} over [{a}, {b}] with the end points as {form} {kind}; as Python floats "
                              f"it returns {v0!r}", {"a": a, "b": b, "n": n, "route": route, "form": form, "usual": v0})
                 continue
-            if math.isnan(v0) and math.isnan(v):
-                continue
+            if v == v0 or (math.isnan(v0) and math.isnan(v)):
+                continue  # also equal infinities (out-of-scope values of the library compared with themselves)
             tol = _tol(abs(v0), scale, q0 or q1)
             if not (abs(v - v0) <= tol):
                 sh.violation(key % _failure_class(v, v0, tol),
@@ -1088,6 +1094,12 @@ def _truncated(sh, spec, base_model, base_cache, fam, label, n, Ts, mode, fin, s
             if aa < bb and not finite_on(aa, bb):
                 sh.count("truncated_pairs_out_of_scope")
                 continue
+            if aa >= bb and not (fin[-1] and fin[+1]) and any(p == 0.0 for p in ([l if b <= l else r] if len(Ts) == 1 else ends)):
+                # the query is clamped to the point interval AT the origin, where |x|^n nu is not integrable: the library
+                # evaluates the base route on [0, 0] (NaN / inf for the infinite-activity models); a tie at the singularity,
+                # recorded, not judged (see `ties`)
+                sh.count("truncated_tie_at_origin_out_of_scope")
+                continue
             sh.cls(f"truncated:{rel}")
             kind, v, q1 = _call(tm, tnu, route, a, b, n)
             sh.count("evaluations")
@@ -1106,6 +1118,10 @@ def _truncated(sh, spec, base_model, base_cache, fam, label, n, Ts, mode, fin, s
                 exp_kind, expected, q2 = base_cache[(route, aa, bb)]
             key = f"C09:truncated:{fam}:{route}:%s:n={n}:{rel}{ksfx}"
             what = f"{label} {tname}: {route}({a}, {b}) on the truncated measure"
+            if boundary and any(k in _DEGENERATE_RAISES or (k == "ok" and x is not None and math.isnan(x))
+                                for k, x in ((kind, v), (exp_kind, expected))):
+                sh.count("boundary_route_degenerate")  # Python floats raise where numpy floats give NaN: same degenerate formula
+                continue
             if kind != "ok":
                 if exp_kind == kind:
                     sh.count("truncated_base_route_raises_too")  # the base formula's failure is reported by `value`
